@@ -322,6 +322,10 @@ class Choices(DecisionPoint):
       # For multiple choices, choice is encoded in DNA.children.
       # dna.value could be None (Choices as the only encoder in root template)
       # or int (parent choice).
+      if dna.value is not None:
+        raise ValueError(
+            f'Expect a list of choices for a multi-choice, but encountered a '
+            f'DNA with value {dna.value!r}. Location: {self.location.path}.')
       if len(dna.children) != self.num_choices:
         raise ValueError(
             f'Number of DNA child values does not match the number of choices. '
